@@ -211,6 +211,7 @@ def _fault_plan(f, scn=None):
                      retryable_kinds=tuple(f.get('retryable_kinds', (0,))),
                      short_sizes=tuple(f.get('short_sizes', (1,))),
                      max_body_retries=f.get('max_body_retries', 1),
+                     fatal_kinds=tuple(f.get('fatal_kinds', ('read',))),
                      only_ops=f.get('only_ops'))
 
 
